@@ -198,6 +198,23 @@ pub fn generate(p: &GenParams) -> Workload {
         }
         reference.push((contig_name(&mut r, p, i), seq));
     }
+    // a later contig whose whole header equals the first word of an earlier header that carries a
+    // description (">ctgA alt" ... ">ctgA"): distinct names, equal ids. Own stream and no effect on
+    // the sequences, so existing run indices keep everything else.
+    if p.wild_names && reference.len() >= 2 {
+        let mut nr = Rng::new(p.seed ^ 0x1D5);
+        if nr.pct(25) {
+            let described: Vec<usize> = (0..reference.len() - 1).filter(|&i| reference[i].0.contains([' ', '\t'])).collect();
+            if !described.is_empty() {
+                let a = described[nr.below(described.len() as u64) as usize];
+                let b = a + 1 + nr.below((reference.len() - 1 - a) as u64) as usize;
+                let id = reference[a].0.split([' ', '\t']).next().unwrap_or("").to_string();
+                if !id.is_empty() && !reference.iter().any(|c| c.0 == id) {
+                    reference[b].0 = id;
+                }
+            }
+        }
+    }
     let small_len = r.range(30, 90) as usize;
     let small_shared: Vec<u8> = random_seq(&mut r, small_len);
     let mut samples = Vec::new();
